@@ -1387,21 +1387,44 @@ func (x *c03) mapValuesAppended(m ssa.Value) bool {
 		return false
 	}
 	okAll, n := true, 0
-	flow.Instrs(builder, func(in ssa.Instruction) {
-		mu, ok := in.(*ssa.MapUpdate)
-		if !ok || (localMap != nil && mu.Map != ssa.Value(localMap)) {
-			return
+	census := func(f *ssa.Function, only ssa.Value) {
+		flow.Instrs(f, func(in ssa.Instruction) {
+			mu, ok := in.(*ssa.MapUpdate)
+			if !ok || (only != nil && mu.Map != only) {
+				return
+			}
+			n++
+			call, ok := mu.Value.(*ssa.Call)
+			if !ok {
+				okAll = false
+				return
+			}
+			if b, ok := call.Call.Value.(*ssa.Builtin); !ok || b.Name() != "append" {
+				okAll = false
+			}
+		})
+	}
+	var only ssa.Value
+	if localMap != nil {
+		only = localMap
+	}
+	census(builder, only)
+	// the builder may fill the map through a helper or a method of the map's type that it hands the map to
+	for _, ci := range flow.CallInstrs(builder) {
+		g := flow.StaticCallee(ci)
+		if g == nil || g.Blocks == nil || g == builder || !x.c.P.IsLibrary(g) {
+			continue
 		}
-		n++
-		call, ok := mu.Value.(*ssa.Call)
-		if !ok {
-			okAll = false
-			return
+		for i, a := range ci.Common().Args {
+			if _, isMap := a.Type().Underlying().(*types.Map); !isMap || i >= len(g.Params) {
+				continue
+			}
+			if localMap != nil && flow.Peel(a) != ssa.Value(localMap) {
+				continue
+			}
+			census(g, g.Params[i])
 		}
-		if b, ok := call.Call.Value.(*ssa.Builtin); !ok || b.Name() != "append" {
-			okAll = false
-		}
-	})
+	}
 	return okAll && n > 0
 }
 
